@@ -74,6 +74,11 @@ TypeOK == cache \subseteq reg /\ pcB \in {"load", "clear"}
 \* the flag's history is bounded by construction (each thread flags once, each clear needs a `true` read) - but stale `true`
 \* reads can repeat: bound the history for the exhaustive run
 Bound == Len(F) <= 2 * Cardinality(Zs) + 4
+\* liveness: a backend that keeps running and eventually reads the NEWEST message of the flag (the memory model's "stores become
+\* visible in finite time") picks every registered context up
+BLatest == BLoad(Len(F))
+FairSpec == Spec /\ WF_vars(BLatest) /\ WF_vars(BClear) /\ \A z \in Zs : WF_vars(ZReg(z)) /\ WF_vars(ZFlag(z))
+PickedUp == <>[](cache = reg /\ reg = Zs)
 StateView == <<F, lk, clk, viewB, reg, cache, pc, pcB>>
 ExportA == Export => PrintT("BEH " \o ToJson(hist'))
 =============================================================================
